@@ -626,6 +626,39 @@ fn timeout_case(sm: &mut Box<Sim>, k: &Rc<NetKern>, slot: u64) -> Out {
                                     sched::fail("stream|wrong-byte", format!("read_with_timeout returned {n} bytes {:?}", &b[..n.min(8)]));
                                 }
                             }
+                        } else if sim().unwrap().dec.chance(K::Arg, 1, 2) {
+                            // a port nobody listens on (bound by a socket of the harness that never
+                            // calls listen, so no other process can take it meanwhile): the
+                            // handshake is refused after the first connect reported "in progress";
+                            // a connect that returns a stream there has no peer
+                            let (dead, dport) = unsafe {
+                                let fd = libc::socket(libc::AF_INET, libc::SOCK_STREAM | libc::SOCK_CLOEXEC, 0);
+                                let mut sa: libc::sockaddr_in = std::mem::zeroed();
+                                sa.sin_family = libc::AF_INET as u16;
+                                sa.sin_addr.s_addr = u32::from_ne_bytes([127, 0, 0, 1]);
+                                let mut len = std::mem::size_of::<libc::sockaddr_in>() as u32;
+                                if fd < 0 || libc::bind(fd, std::ptr::addr_of!(sa).cast(), len) != 0 || libc::getsockname(fd, std::ptr::addr_of_mut!(sa).cast(), &mut len) != 0 {
+                                    sched::fail("harness|dead-port", "could not reserve a port".to_string());
+                                }
+                                (fd, u16::from_be(sa.sin_port))
+                            };
+                            let daddr = SocketAddress::new(Ip::V4([127, 0, 0, 1]), dport);
+                            let timed = sim().unwrap().dec.chance(K::Arg, 1, 2);
+                            let t0 = sim().unwrap().mono_ns;
+                            let r = if timed { TcpStream::connect_with_timeout(&daddr, limit) } else { TcpStream::connect(&daddr) };
+                            let to = matches!(r, Err(tiny_std::Error::Timeout));
+                            let what = if timed { "TcpStream::connect_with_timeout" } else { "TcpStream::connect" };
+                            *outcome.borrow_mut() = format!("{what} to a port without listener -> {}", if r.is_ok() { "Ok" } else if to { "Timeout" } else { "Err" });
+                            sim().unwrap().count("probe.connect_without_listener");
+                            if timed {
+                                check_timeout(what, t0, to, false);
+                            } else if to {
+                                sched::fail("connect|timeout-without-limit", "TcpStream::connect returned Timeout".to_string());
+                            }
+                            unsafe { libc::close(dead) };
+                            if r.is_ok() {
+                                sched::fail(format!("connect|ok-without-listener|{what}"), format!("{what} to 127.0.0.1:{dport}, where no socket listens, returned a stream"));
+                            }
                         } else {
                             // connect_with_timeout to ourselves: completes at once on loopback
                             let t0 = sim().unwrap().mono_ns;
